@@ -20,6 +20,7 @@ from hypothesis import strategies as st
 
 import nfc.tag
 
+from vlib import tagdev
 from vlib.engine import Leg, Violation, unexpected
 from props import tagcommon as tc
 
@@ -148,8 +149,21 @@ def run(case, ctx):
         ctx.label("len>=255")
     if L == cap:
         ctx.label("len=cap")
+    if desc["kind"] == "t4t":
+        # exchanges this write legitimately needs: one UPDATE BINARY per MLc
+        # bytes, each chained over FSC-3 byte blocks, plus WTX rounds and
+        # chunked answers; histories beyond the device budget are skipped
+        fsc = (16, 24, 32, 40, 48, 64, 96, 128, 256)[min(desc["fsci"], 8)]
+        mlc = max(1, min(desc["mlc"], 255))
+        per_cmd = -(-(mlc + 7) // max(1, fsc - 3)) + desc.get("wtx", 0) + 4
+        if (L // mlc + 4) * per_cmd > clf.device.budget // 2:
+            ctx.label("skipped:write-longer-than-command-budget")
+            return
     try:
         ndef.octets = data
+    except tagdev.BudgetExceeded:
+        raise Violation("unbounded-commands", "writing %d bytes took more "
+                        "than %d commands: %r" % (L, clf.device.budget, desc))
     except Exception as e:
         raise unexpected(e, "write-raises",
                          detail="L=%d cap=%d %r" % (L, cap, desc))
